@@ -87,6 +87,9 @@ def _sampled(ctx, case):
     addrs = case.get("addrs") or ipgen.addresses(rng, cfg, case["n"])
     anon = ipgen.build(cfg)
     ft = FlipTable(L, B)
+    eff = FlipTable(L, B)  # the mapping a reader of the output sees: preserved addresses stay as written
+    _, preserved = ipgen.cfg_networks(cfg)
+    pranges = [(int(n.network_address), int(n.broadcast_address)) for n in preserved]
     fmap = {}
     for a in addrs:
         fa = anon.anonymize(a)
@@ -96,6 +99,8 @@ def _sampled(ctx, case):
             return
         fmap[a] = fa
         ft.observe(a, fa)
+        if pranges:
+            eff.observe(a, a if any(lo <= a <= hi for lo, hi in pranges) else fa)
     ctx.count("flip_observations", ft.n)
     ctx.count("requests_v%d" % cfg["fam"], len(addrs))
     if ft.conflict is not None:
@@ -109,6 +114,14 @@ def _sampled(ctx, case):
                       "bit %d of the image depends on more than the %d leading bits: a=%s->%s, b=%s->%s"
                       % (i, i, a, fa, partner, fmap.get(partner)))
         return
+    if pranges:
+        ctx.count("effective_mapping_observations", eff.n)
+        if eff.conflict is not None:
+            i, a, fa = eff.conflict
+            ctx.violation(dict(case, addrs=[a]), "effective-mapping-not-prefix-preserving",
+                          "with preserved addresses left as written, bit %d of the output depends on more than the %d leading bits "
+                          "(address %s -> %s; preserved networks %r)" % (i, i, a, fa, cfg.get("pa")))
+            return
     if ft.suffix_bad is not None and B:
         a, fa = ft.suffix_bad
         # host bits differ -> two addresses sharing all leading bits map apart / together wrongly
